@@ -44,9 +44,9 @@ LABELLED = [
     ("SingleFieldSubscriptions", "subscription { ...F } fragment F on Subscription { tick ping { name } }"),
     ("SingleFieldSubscriptions", "subscription A { ...F } subscription B { ...F tick } fragment F on Subscription { ping { name } }"),
     # an exclusive comparison (Dog / Cat) of a field set with a fragment must not stand in for the strict one (Dog / Dog) of the same pair met later, in any order
-    ("OverlappingFieldsCanBeMerged", "{ pet { ... on Dog { owner { x: name } } ... on Cat { owner { ...F } } ... on Dog { owner { ...F } } } } fragment F on Person { x: age }"),
-    ("OverlappingFieldsCanBeMerged", "{ pet { ... on Dog { owner { ...F } } ... on Cat { owner { x: name } } ... on Dog { owner { x: name } } } } fragment F on Person { x: age }"),
-    ("OverlappingFieldsCanBeMerged", "{ pet { ... on Cat { owner { ...F } } ... on Dog { owner { x: name } } ... on Dog { owner { ...F } } } } fragment F on Person { x: age }"),
+    ("OverlappingFieldsCanBeMerged", "{ pet { ... on Dog { owner { x: name } } ... on Cat { owner { ...F } } ... on Dog { owner { ...F } } } } fragment F on Person { x: tag }"),
+    ("OverlappingFieldsCanBeMerged", "{ pet { ... on Dog { owner { ...F } } ... on Cat { owner { x: name } } ... on Dog { owner { x: name } } } } fragment F on Person { x: tag }"),
+    ("OverlappingFieldsCanBeMerged", "{ pet { ... on Cat { owner { ...F } } ... on Dog { owner { x: name } } ... on Dog { owner { ...F } } } } fragment F on Person { x: tag }"),
     ("SingleFieldSubscriptions", "subscription B { ...F tick } subscription A { ...F } fragment F on Subscription { ping { name } }"),
     ("UniqueFragmentNames", "fragment F on Person { name } fragment F on Person { age } { me { ...F } }"),
     ("KnownTypeNames", "{ me { ... on Nope { name } } }"),
